@@ -3,6 +3,7 @@ spec, stepped one real Environment.step() at a time (E1) or driven from inside t
 real System.simulate() (E2).  See DESIGN.md sections 2-4.
 '''
 import math
+import os
 import random
 
 from . import Violation, HarnessError
@@ -18,6 +19,54 @@ from simprocesd.model.factory_floor.action_scheduler import ActionScheduler
 from simprocesd.model.sensors import PeriodicSensor, AttributeProbe
 from simprocesd.model.sensors.part_sensor import OutputPartSensor
 from simprocesd.model.cms.cms import Cms
+
+class _EventWatchdog:
+    '''One event that burns more than 10-20 s of CPU (they normally take microseconds) is an endless loop inside the
+    library: the run does not return (C03, termination).  CPU time, not wall time, so that load on the machine does not
+    matter.  One repeating virtual timer per process; an event that is still the current one at two consecutive ticks is
+    reported.  Cost per event: two assignments.'''
+    TICK = 10
+    ENABLED = True
+    seq = 0
+    current = None
+    seen = -1
+    installed = None         # pid of the process in which the timer was armed (timers are not inherited by fork)
+
+    @classmethod
+    def _tick(cls, signum, frame):
+        ev = cls.current
+        if ev is None:
+            cls.seen = -1
+            return
+        if cls.seen == cls.seq:
+            cls.seen = -1
+            what = ev() if callable(ev) else f'{canon.event_key(ev)[3]} due at t={ev.time}'
+            v = Violation('termination', f'one event ({what}) used more than '
+                                         f'{cls.TICK} s of CPU without returning: the run does not return')
+            v.fatal = True
+            raise v
+        cls.seen = cls.seq
+
+    def __init__(self, ev):
+        self.ev = ev
+
+    def __enter__(self):
+        cls = _EventWatchdog
+        if cls.ENABLED and cls.installed != os.getpid():
+            import signal
+            import threading
+            cls.installed = os.getpid()
+            if threading.current_thread() is threading.main_thread():
+                signal.signal(signal.SIGVTALRM, cls._tick)
+                signal.setitimer(signal.ITIMER_VIRTUAL, cls.TICK, cls.TICK)
+        cls.seq += 1
+        cls.current = self.ev
+        return self
+
+    def __exit__(self, *a):
+        _EventWatchdog.current = None
+        return False
+
 
 class AbortRun(Exception):
     '''Raised by the scripted operation 'abort' from inside an event: a user callback that fails.  The run ends there.'''
@@ -1021,7 +1070,8 @@ class LineWorld:
                                         float(ev.event_type)))
             aborted = None
             try:
-                Environment.step(env)
+                with _EventWatchdog(ev):
+                    Environment.step(env)
             except AbortRun as e:
                 # a user callback raised: the real run loop unwinds (E2: re-raised below, after the bookkeeping that E1
                 # does as well); no further event of this run is dispatched
